@@ -155,8 +155,43 @@ func vTTypo(r *rand.Rand, lines []string) ([]string, []int) {
 	return out, vIdentityMap(len(lines))
 }
 
+// vTDashDecor composes two of the listed changes so that they meet in one place: the
+// lines are prefixed with the "--" comment decoration and then EVERY ASCII hyphen,
+// those of the decoration included, becomes a typographic dash.
+func vTDashDecor(r *rand.Rand, lines []string) ([]string, []int) {
+	d := []string{"-- ", "--", "-- ", " -- "}[r.Intn(4)]
+	dash := []string{"‒", "–", "—", "‐"}[r.Intn(4)]
+	mixed := r.Intn(3) == 0
+	out := make([]string, len(lines))
+	for i, l := range lines {
+		if i > 0 && vEndsHyphen(lines[i-1]) {
+			out[i] = l
+			continue
+		}
+		l = d + l
+		if vEndsHyphen(lines[i]) {
+			out[i] = l
+			continue
+		}
+		var sb strings.Builder
+		for _, c := range l {
+			if c == '-' {
+				if mixed {
+					dash = []string{"‒", "–", "—", "‐"}[r.Intn(4)]
+				}
+				sb.WriteString(dash)
+			} else {
+				sb.WriteRune(c)
+			}
+		}
+		out[i] = sb.String()
+	}
+	return out, vIdentityMap(len(lines))
+}
+
 var vC05Transforms = []vTransform{
 	{"recase", vTRecase}, {"whitespace", vTWhitespace}, {"blank-lines", vTBlank}, {"decoration", vTDecor}, {"typographic", vTTypo},
+	{"dash-decoration", vTDashDecor},
 }
 
 // vCompareMapped compares license results of the base text (r0) and of the
